@@ -79,6 +79,7 @@ var VerifEntries = map[string]func(){
 	"VerifC14_Fees":            VerifC14_Fees,
 	"VerifC09_ConsensusFees":   VerifC09_ConsensusFees,
 	"VerifC09_Blocks":          VerifC09_Blocks,
+	"VerifC09_SetChanges":      VerifC09_SetChanges,
 	"VerifC17_Jobs":            VerifC17_Jobs,
 	"VerifC03_Treasury":        VerifC03_Treasury,
 	"VerifC03_ValidatorKeyed":  VerifC03_ValidatorKeyed,
